@@ -168,7 +168,7 @@ class Ctx:
     def __init__(self, prop: str, tier: str, seed: int):
         self.prop, self.tier, self.seed = prop, tier, seed
         self.t0 = time.time()
-        self.work = VERIF / "work" / prop
+        self.work = VERIF / "work" / f"{prop}.{os.getpid()}"
         shutil.rmtree(self.work, ignore_errors=True)
         self.work.mkdir(parents=True, exist_ok=True)
         self.states = 0
@@ -277,7 +277,7 @@ class Ctx:
               "coverage": cov, "assumptions": self.assumptions, "notes": self.notes,
               "wall_s": round(time.time() - self.t0, 2),
               "violations": sum(len(l) for l in viol.values())}
-        if not self.is_replay:
+        if not self.is_replay and not os.environ.get("VERIF_NO_EVIDENCE"):
             (VERIF / "evidence").mkdir(exist_ok=True)
             (VERIF / "evidence" / f"{prop}.json").write_text(
                 json.dumps(ev, indent=1, default=str))
